@@ -12,5 +12,5 @@ Init ==
   /\ g1 # 1
 Next == UNCHANGED <<tp, g1, k1, g2, k2>>
 Choice == IF g1 = 0 THEN <<>> ELSE IF g2 = 0 THEN (g1 :> k1) ELSE (g1 :> k1) @@ (g2 :> k2)
-Emit == PrintT("CASE " \o ToJson([tpl |-> tp, g1 |-> g1, k1 |-> k1, g2 |-> g2, k2 |-> k2, src |-> Text(tp, Choice)]))
+Emit == PrintT("CASE " \o ToJson([tpl |-> tp, g1 |-> g1, k1 |-> k1, g2 |-> g2, k2 |-> k2, src |-> Text(tp, Choice), stag |-> StmtTag(tp, g1)]))
 =============================================================================
